@@ -84,19 +84,6 @@ Definition sx_targs (l : list str) : str := B "(targs" ++ concat (map (fun n => 
 
 Definition bstr (b : bool) : str := if b then B "true" else B "false".
 
-(* template_funcs.Exported on ASCII identifiers (the harness only generates ASCII type
-   parameter names): an initialism if the upper-cased string is one, else the first byte
-   upper-cased. *)
-Definition initialisms : list str :=
-  [B "ACL"; B "API"; B "ASCII"; B "CPU"; B "CSS"; B "DNS"; B "EOF"; B "GUID"; B "HTML"; B "HTTP"; B "HTTPS"; B "ID"; B "IP"; B "JSON"; B "LHS";
-   B "QPS"; B "RAM"; B "RHS"; B "RPC"; B "SLA"; B "SMTP"; B "SQL"; B "SSH"; B "TCP"; B "TLS"; B "TTL"; B "UDP"; B "UI"; B "UID"; B "UUID"; B "URI";
-   B "URL"; B "UTF8"; B "VM"; B "XML"; B "XMPP"; B "XSRF"; B "XSS"].
-Definition exported_ascii (s : str) : str :=
-  match s with
-  | [] => []
-  | b :: r => if smem (map ascii_upper s) initialisms then map ascii_upper s else ascii_upper b :: r
-  end.
-
 Record case := {
   c_dst : str; c_inpkg : bool;
   c_names : list (str * str);
